@@ -10,6 +10,12 @@ for l in open(os.path.join(HERE, "properties.jsonl")):
 # id -> (level text, level note, technique, design_ref)
 TECH = 'Lean 4 proof about hand-written model + differential correspondence with the implementation'
 CLAIMS = {
+    'C07': (
+        'Lean 4 theorems: conforms_iff / conforms_iff_of_graph (for every well-formed architecture and every diagram whose components are existing, pairwise unrelated modules, the model of DiagramRule passes exactly when the imports conform to the diagram, in both modes; never_errs, fails_iff_not_conforms; each generated rule is a strict C01 rule: generated_rules_strict), aggregates_all / first_error_propagates (the failure aggregates the items of ALL failing generated rules in order; the first non-assertion error propagates), base_module / base_module_diagram / diagramAssert_base_iff (with_base_module(p) = writing every component as p.name), diagramAssert_iff (composition with the parser). Tie: real DiagramRule.assert_applies on generated diagrams x import graphs (both modes, both naming options) vs the model vs the conformance oracle; verdict and the set of message lines.',
+        "Domain: diagramDomain (components exist, pairwise unrelated, arrows between distinct components). Trusted: Lean kernel, harness/driver; the parser tie is C06's.",
+        TECH,
+        '6/C07',
+    ),
     'C06': (
         "Lean 4 round-trip theorem Pta.C06.roundtrip: for EVERY diagram of the documented subset (any interleaving of declaration lines in the 3 declaration forms with optional 'as alias' on the bracketed forms and arrow lines in all 6 arrow forms with bracketed / bare / alias references; names = identifiers or dotted names; arbitrary text before @startuml, text without @enduml after the end tag) the model of PumlParser.parse returns exactly the declared-or-referenced component names with aliases resolved and exactly the drawn dependor->dependee relation; order_irrelevant and presentation_irrelevant (line order / alias-vs-name spelling do not matter), no_tags (parsing error), plus the layer lemmas (decl_line_modules, arrow_line_dependency, body_of_text, aggregate_law for arbitrary per-line results). Tie: diagrams rendered from random component relations in every documented form, real PumlParser().parse vs the model vs the generating relation.",
         "The regex engine is not modelled: the line recognisers were written after the two regular expressions and their agreement with Python's re on documented lines rests on the correspondence run. Outside the subset (bracketed alias, second @enduml in trailing text) two boundary theorems state what the model does; the real code agrees. Trusted: Lean kernel, harness/driver.",
